@@ -38,6 +38,41 @@ thread_local! {
 pub static REPORT_FAILS: std::sync::atomic::AtomicBool = std::sync::atomic::AtomicBool::new(false);
 pub static LOG: Mutex<Vec<String>> = Mutex::new(Vec::new());
 pub static DEPTH_VIOLATIONS: Mutex<Vec<String>> = Mutex::new(Vec::new());
+pub static ACT: Mutex<Vec<String>> = Mutex::new(Vec::new());
+thread_local! {
+    pub static IS_MAIN: std::cell::Cell<bool> = std::cell::Cell::new(false);
+}
+
+fn act(tok: &str) {
+    if IS_MAIN.with(|m| m.get()) {
+        ACT.lock().unwrap().push(tok.to_string());
+    }
+}
+
+pub fn trace_hook(ev: updater::verif::SyncEvent) {
+    use updater::verif::SyncEvent::*;
+    match ev {
+        CfgAcquired => {
+            if updater::verif::verif_upd_depth() > 0 || true {
+                act("A")
+            }
+        }
+        CfgRelease => act("R"),
+        UpdTry(ok) => {
+            if verif_cfg_depth() != 0 {
+                DEPTH_VIOLATIONS.lock().unwrap().push("update mutex tried while holding the config lock".into());
+            }
+            act(if ok { "T1" } else { "T0" })
+        }
+        UpdRelease => act("U"),
+        CfgBefore => {
+            if verif_cfg_depth() != 0 {
+                DEPTH_VIOLATIONS.lock().unwrap().push("config lock re-entered".into());
+            }
+        }
+        UpdBefore => {}
+    }
+}
 
 pub fn hx(s: &str) -> String {
     if s.is_empty() {
@@ -48,6 +83,7 @@ pub fn hx(s: &str) -> String {
 }
 
 fn note_depth(what: &str) {
+    act("N");
     if verif_cfg_depth() != 0 {
         DEPTH_VIOLATIONS
             .lock()
@@ -58,7 +94,8 @@ fn note_depth(what: &str) {
 
 pub fn check_hook(_url: &str, req: PatchCheckRequest) -> anyhow::Result<PatchCheckResponse> {
     note_depth("check");
-    if let Some(h) = *crate::sched::NET_HOOK.lock().unwrap() {
+    let h = *crate::sched::NET_HOOK.lock().unwrap();
+    if let Some(h) = h {
         h("check");
     }
     let v = serde_json::to_value(&req).unwrap();
@@ -94,7 +131,8 @@ pub fn check_hook(_url: &str, req: PatchCheckRequest) -> anyhow::Result<PatchChe
 pub fn download_hook(url: &str) -> anyhow::Result<Vec<u8>> {
     note_depth("download");
     LOG.lock().unwrap().push(format!("D:{}", hx(url)));
-    if let Some(h) = *crate::sched::NET_HOOK.lock().unwrap() {
+    let h = *crate::sched::NET_HOOK.lock().unwrap();
+    if let Some(h) = h {
         h("download");
     }
     let dl = ENV.with(|e| e.borrow().as_ref().and_then(|e| e.dl.clone()));
@@ -471,7 +509,9 @@ impl World {
         };
         let yaml_c = CString::new(self.yaml_of(y)).unwrap();
         let r = c_api::shorebird_init(&params, callbacks, yaml_c.as_ptr());
+        let n = ACT.lock().unwrap().len();
         verif_set_network_hooks(check_hook, download_hook, report_hook);
+        ACT.lock().unwrap().truncate(n);
         r
     }
 
@@ -640,6 +680,7 @@ pub fn main(args: &[String]) -> i32 {
     let keep = std::env::var("UVH_KEEP").is_ok();
     let mut cur_hist: Option<PathBuf> = None;
     let mut sched_threads: Vec<Vec<Vec<String>>> = vec![];
+    let mut tracing = false;
     use std::io::Write;
     let stdout = std::io::stdout();
     let mut out = std::io::BufWriter::new(stdout.lock());
@@ -666,16 +707,31 @@ pub fn main(args: &[String]) -> i32 {
                 w.blobs.insert(toks[1].to_string(), b);
             }
             "zdec" | "sig" | "num" => {}
+            "stall" => {
+                crate::sched::STALL.store(toks[1] == "on", std::sync::atomic::Ordering::SeqCst);
+            }
+            "trace" => {
+                tracing = true;
+                IS_MAIN.with(|m| m.set(true));
+                updater::verif::verif_set_sync_hook(Some(trace_hook));
+            }
             "base" => {
                 w.base = w.blob(toks[1]);
             }
             "op" => {
                 LOG.lock().unwrap().clear();
+                ACT.lock().unwrap().clear();
                 let o = w.exec(&toks[1..]);
                 wait_quiescent();
                 w.snapshot();
                 let net = LOG.lock().unwrap().clone();
-                writeln!(out, "{}", abs_line(&o, &w.storage, &net)).unwrap();
+                if tracing {
+                    let a = std::mem::take(&mut *ACT.lock().unwrap());
+                    let a = if toks[1] == "kill" || toks[1] == "dmg" { "-".to_string() } else { a.join(",") };
+                    writeln!(out, "{} act={}", abs_line(&o, &w.storage, &net), a).unwrap();
+                } else {
+                    writeln!(out, "{}", abs_line(&o, &w.storage, &net)).unwrap();
+                }
                 out.flush().unwrap();
             }
             "applypatch" | "sha" | "wfm" | "sdiff" | "varint" => {}
@@ -690,6 +746,9 @@ pub fn main(args: &[String]) -> i32 {
                 let order: Vec<usize> = toks[1].split(',').filter(|x| !x.is_empty()).map(|x| x.parse().unwrap()).collect();
                 LOG.lock().unwrap().clear();
                 let outs = crate::sched::run(&w, std::mem::take(&mut sched_threads), &order);
+                if tracing {
+                    updater::verif::verif_set_sync_hook(Some(trace_hook));
+                }
                 wait_quiescent();
                 w.snapshot();
                 let mut net = LOG.lock().unwrap().clone();
